@@ -1,5 +1,8 @@
 // Instrumented element types, allocators and ledgers shared by the correspondence harnesses.
 #pragma once
+#if __cplusplus >= 202002L
+#include <compare>
+#endif
 #include <cstdint>
 #include <cstdio>
 #include <cstdlib>
@@ -148,6 +151,9 @@ struct ElemBase {
   bool operator==(const ElemBase &o) const { return get() == o.get(); }
   bool operator!=(const ElemBase &o) const { return !(*this == o); }
   bool operator<(const ElemBase &o) const { return get() < o.get(); }
+#if __cplusplus >= 202002L
+  auto operator<=>(const ElemBase &o) const { return get() <=> o.get(); }
+#endif
 };
 
 struct ElemNTR : ElemBase<true> {
